@@ -8,6 +8,12 @@ open CalmVerif.Props.C12
 #check @token_terminates
 #check @lr_run_total
 #check @outcomes_are_explicit
+#print axioms driver_total
+#print axioms lr_driver_no_internal
+#print axioms parse_no_driver_internal
+#check @driver_total
+#check @lr_driver_no_internal
+#check @parse_no_driver_internal
 open CalmVerif.Props.C12lex
 #print axioms lexer_no_internal
 #print axioms token_no_internal
